@@ -57,6 +57,30 @@ fn main() {
         }
         return;
     }
+    if a[1] == "--alg" {
+        // replay --alg <task> name=hex64 name=hex64 ... : native evaluation of one engine-A task
+        use sm9_kani::common::*;
+        let mut m = std::collections::HashMap::new();
+        for kv in &a[3..] {
+            let (k, h) = kv.split_once('=').expect("name=hex");
+            let mut b = [0u8; 32];
+            for i in 0..32 {
+                b[i] = u8::from_str_radix(&h[2 * i..2 * i + 2], 16).expect("hex");
+            }
+            m.insert(k.to_string(), RawFq::from_slice(&b).expect("canonical input"));
+        }
+        match std::panic::catch_unwind(|| sm9_kani::algreplay::eval(&a[2], &sm9_kani::algreplay::Env(m))) {
+            Ok(Some(v)) => {
+                for x in v {
+                    let s = x.to_slice();
+                    println!("{}", s.iter().map(|b| format!("{:02x}", b)).collect::<String>());
+                }
+            }
+            Ok(None) => { println!("UNKNOWN-TASK"); std::process::exit(4); }
+            Err(_) => { println!("PANIC"); std::process::exit(1); }
+        }
+        return;
+    }
     if a[1] == "--selftest" {
         // harness self-test (NOT a verification claim): run every body natively on random inputs
         let n: u64 = a.get(2).and_then(|x| x.parse().ok()).unwrap_or(200);
